@@ -40,6 +40,9 @@ int trace_on = 0;
 char trace_buf[TRACE_MAX];
 size_t trace_len = 0;
 unsigned char heap_fill = 0xA5;
+int prefill = 0x5A;              /* pattern output objects are filled with before a call */
+size_t env_tail = 0;             /* junk bytes placed right after every input buffer (non-ASan builds) */
+unsigned char env_tail_byte = 0x41;
 int ledger_errors = 0;
 
 void *__real_malloc(size_t);
@@ -139,8 +142,9 @@ static int hexv(int c) {
 /* parse a hex token ("-" = empty) into an exactly-sized heap block (ASan redzones on both sides) */
 unsigned char *hexbuf(const char *tok, size_t *len) {
     size_t n = (tok == NULL || strcmp(tok, "-") == 0) ? 0 : strlen(tok) / 2;
-    unsigned char *b = __real_malloc(n);
+    unsigned char *b = __real_malloc(n + env_tail);
     for (size_t i = 0; i < n; i++) b[i] = (unsigned char) (hexv(tok[2 * i]) * 16 + hexv(tok[2 * i + 1]));
+    for (size_t i = 0; i < env_tail; i++) b[n + i] = (unsigned char) (env_tail_byte + i);
     *len = n;
     return b;
 }
@@ -181,6 +185,12 @@ int main(void) {
                     found = 1;
                     break;
                 }
+        if (!found && strcmp(toks[0], "env") == 0) {
+            /* env <heap fill> <output prefill> <tail bytes> <tail byte>: the environment of the following cases */
+            heap_fill = (unsigned char) tok_ll(toks[1]); prefill = (int) tok_ll(toks[2]);
+            env_tail = (size_t) tok_ll(toks[3]); env_tail_byte = (unsigned char) tok_ll(toks[4]);
+            printf("env set"); found = 1;
+        }
         if (!found) printf("unknown-op %s", toks[0]);
         putchar('\n');
         fflush(stdout);
